@@ -85,6 +85,14 @@ func corpus() []corpusCase {
 			dyn("e", "mk_ulist", "", []string{`"l"`}, at("p", `"x"`))}},
 		{"marked-single-empty-content", listOf("a", kSingle, nil, leaf("p")), []gItem{
 			dyn("a", "mk_list", "", nil)}},
+		{"shadowed-ancestor-explicit-iterator", listOf("a", kList, nil, &specNode{Attrs: strAttr("p"), Blocks: []blockDef{{"b", kList, nil, &specNode{Attrs: strAttr("p"), Blocks: []blockDef{{"c", kMap, []string{"key"}, leaf("p", "q")}}}}}}), []gItem{
+			dyn("a", "sh_o", "it", nil, at("p", "«it».key"),
+				dyn("b", "sh_i", "it", nil, at("p", "«it».value.k"),
+					dyn("c", "«it».value.v", "", []string{`"${«it».key}-${«c».key}"`}, at("p", "«it».value.k"), at("q", "«c».value"))))}},
+		{"shadowed-ancestor-same-block-type", listOf("a", kList, nil, &specNode{Attrs: strAttr("p"), Blocks: []blockDef{{"a", kList, nil, &specNode{Attrs: strAttr("p"), Blocks: []blockDef{{"b", kList, nil, leaf("p", "q")}}}}}}), []gItem{
+			dyn("a", "sh_o", "", nil, at("p", "«a».key"),
+				dyn("a", "sh_i", "", nil, at("p", "«a».value.k"),
+					dyn("b", `["u", "w"]`, "", nil, at("p", `"${«a».key}/${«b».value}"`), at("q", "«a».value.k"))))}},
 		{"block-attrs-in-dynamic", listOf("a", kAttrs, nil, nil), []gItem{
 			dyn("a", `["x"]`, "", nil, at("u", "«a».value"))}},
 		{"null-for_each", listOf("a", kList, nil, leaf("p")), []gItem{dyn("a", "nul_list", "", nil, at("p", `"x"`))}},
